@@ -7,6 +7,7 @@ import GitSizer.Driver.Graph
 import GitSizer.Driver.Output
 import GitSizer.Driver.Meter
 import GitSizer.Driver.E2E
+import GitSizer.Driver.Cli
 /-! `gsmodel`: reads case lines (engine TAB id TAB input… TAB => TAB observed…) on stdin and
     prints one verdict line per case: id TAB verdict… -/
 open GitSizer.Driver
@@ -23,6 +24,10 @@ def engineOf (name : String) : Option Engine :=
   | "output" => some outputEngine
   | "meter" => some meterEngine
   | "e2e" => some e2eEngine
+  | "opts" => some optsEngine
+  | "addr" => some addrEngine
+  | "rw" => some rwEngine
+  | "fault" => some faultEngine
   | _ => none
 
 def splitCase (fields : List String) : List String × List String :=
